@@ -1,3 +1,68 @@
 import Sheens.Expect
+import Sheens.Proofs.ExpectLemmas
 
-/-! Property C19 — theorems (in progress). -/
+/-!
+# Property C19 — the expectation tool's verdict is sound
+
+Over the model `Expect.verdict` of `Session.Run` (repaired tree), for all sessions (any number of
+steps, expected and inverted outputs, guards as arbitrary functions) and all event streams.
+-/
+
+namespace Sheens.C19
+
+open Expect
+
+def linesOf (evs : List Event) : List V :=
+  evs.filterMap (fun e => match e with | .line v => some v | _ => none)
+
+/-- a chunk of the stream serves a step: every expected output is accepted by some line of the
+    chunk, and no forbidden (inverted) output accepts any line of the chunk -/
+def Serves (st : IOStep) (chunk : List Event) : Prop :=
+  (∀ o ∈ st.outputs, o.inverted = false → ∃ l ∈ linesOf chunk, accepts o l = .ok true) ∧
+  (∀ o ∈ st.outputs, o.inverted = true → ∀ l ∈ linesOf chunk, accepts o l ≠ .ok true)
+
+/-- consecutive chunks of the stream, one per step, each serving its step -/
+inductive Witnessed : List IOStep → List Event → Prop
+  | nil  : Witnessed [] evs
+  | cons : Serves st chunk → Witnessed more rest → Witnessed (st :: more) (chunk ++ rest)
+
+/-- One step that completes has consumed a chunk that serves it. -/
+theorem runStep_sound (st : IOStep) (evs rest : List Event)
+    (h : runStep st.outputs (st.outputs.map (fun _ => false)) (needOf st.outputs) evs = .ok rest) :
+    ∃ chunk, evs = chunk ++ rest ∧ Serves st chunk := by
+  exact runStep_serves st.outputs evs rest h
+
+/-- The session passes only if, step by step, every expected output was matched (and accepted by its
+    guard) by some emitted message of that step and no forbidden pattern was matched.  In particular
+    each expected output has a witnessing line of its own: a message appearing twice does not stand
+    in for a different expected message (it would have to be accepted by that one too). -/
+theorem verdict_sound (steps : List IOStep) (evs : List Event) (h : verdict steps evs = .pass) :
+    Witnessed steps evs := by
+  induction steps generalizing evs with
+  | nil => exact .nil
+  | cons st more ih =>
+    simp only [verdict] at h
+    cases hr : runStep st.outputs (st.outputs.map (fun _ => false)) (needOf st.outputs) evs with
+    | error e => simp [hr] at h
+    | ok rest =>
+      simp only [hr] at h
+      obtain ⟨chunk, rfl, hs⟩ := runStep_sound st evs rest hr
+      exact .cons hs (ih rest h)
+
+/-- If an expected message never arrives before the timeout (or the stream ends), the session fails. -/
+theorem missing_expected_fails (st : IOStep) (more : List IOStep) (evs : List Event) (o : Output)
+    (ho : o ∈ st.outputs) (hi : o.inverted = false)
+    (hnone : ∀ l ∈ linesOf evs, accepts o l ≠ .ok true) :
+    verdict (st :: more) evs ≠ .pass := by
+  intro hp
+  simp only [verdict] at hp
+  cases hr : runStep st.outputs (st.outputs.map (fun _ => false)) (needOf st.outputs) evs with
+  | error e => simp [hr] at hp
+  | ok rest =>
+    obtain ⟨chunk, rfl, hs⟩ := runStep_sound st evs rest hr
+    obtain ⟨l, hl, ha⟩ := hs.1 o ho hi
+    refine hnone l ?_ ha
+    simp only [linesOf, List.filterMap_append, List.mem_append]
+    exact Or.inl hl
+
+end Sheens.C19
